@@ -564,3 +564,79 @@ Definition premise_n (v : val) : bool :=
     preparation of every raw text is the oracle and that the harness' two flags per text are the model's *)
 Definition run_C13N (v : val) : val := run_C13 (rawify v).
 Definition agree_C13N (v m i : val) : bool := prep_agree v && kf_agree v && agree_C13 v m i.
+
+(** * Evaluation with reduced fractions (long lists).
+    [Qplus] multiplies denominators, so the plain sums above grow by a few bits per sequence and the
+    final [Qred] of [num_v] becomes quadratic in the number of sequences. The variants below reduce
+    after every addition; they are EQUAL to the plain ones as values ([==]) and therefore give the same
+    [val] (C13_Fast.v: [run_C13_fast v = run_C13 v], [check_C13_fast v out = check_C13 v out]). The
+    extracted check uses them; every theorem is about the plain definitions. *)
+Fixpoint qsum_red (l : list Q) : Q := match l with [] => 0%Q | x :: r => Qred (x + qsum_red r)%Q end.
+Definition mean_ed_fast (normalized : bool) (s t : list (list cluster)) : option Q :=
+  if Nat.eqb (length s) (length t)
+  then Some (qsum_red (map (fun p => C12_Model.distance ed_flags normalized (fst p) (snd p)) (C12_Model.zip s t))
+             / inject_Z (Z.of_nat (Nat.max (length s) 1)))%Q
+  else None.
+Definition fpr_red (x : fpr) : fpr := match x with (a, b, c) => (Qred a, Qred b, Qred c) end.
+Definition seq_avg_f1_fast (beta : Q) (vals : list counts) : fpr :=
+  match fold_left (fun acc v => fpr_red (fpr_add acc (seq_one beta v))) vals (0%Q, 0%Q, 0%Q) with
+  | (f, p, r) =>
+    let n := inject_Z (Z.of_nat (Nat.max (length vals) 1)) in
+    ((f / n)%Q, (p / n)%Q, (r / n)%Q)
+  end.
+Definition aggregate_fast (seq_avg : bool) (beta : Q) (vals : list counts) : fpr :=
+  if seq_avg then seq_avg_f1_fast beta vals else micro_f1 beta vals.
+Definition ws_f1_fast (beta : Q) (seq_avg : bool) (m : wmode) (inputs preds targets : list (list cluster))
+  : outcome (fpr * list winfo) :=
+  if same3 inputs preds targets then
+    match collect (map (fun x => match x with (i, p, t) => ws_tp_fp_fn m i p t end) (zip3 inputs preds targets)) with
+    | Ok vals => Ok (aggregate_fast seq_avg beta (map fst vals), map snd vals)
+    | Err => Err
+    | Panic => Panic
+    end
+  else Err.
+Definition sp_f1_fast (beta : Q) (seq_avg : bool) (inputs preds targets : list (list cluster)) : outcome fpr :=
+  if same3 inputs preds targets then
+    match collect (map (fun x => match x with (i, p, t) => Some (sp_tp_fp_fn i p t) end) (zip3 inputs preds targets)) with
+    | Ok vals => Ok (aggregate_fast seq_avg beta vals)
+    | Err => Err
+    | Panic => Panic
+    end
+  else Err.
+Definition run_C13_fast (v : val) : val :=
+  let cfg := v_nth 1 v in
+  let d := v_nth 2 v in
+  match v_z (v_nth 0 v) with
+  | 0%Z => opt_out fpr_v (binary_f1 (v_beta (v_nth 0 cfg)) (v_list v_bool (v_nth 0 d)) (v_list v_bool (v_nth 1 d)))
+  | 1%Z => opt_out num_v (accuracy (v_list v_z (v_nth 0 d)) (v_list v_z (v_nth 1 d)))
+  | 2%Z => opt_out num_v (mean_ed_fast (v_bool (v_nth 0 cfg)) (v_cll (v_nth 0 d)) (v_cll (v_nth 1 d)))
+  | 3%Z => outcome_out (fun x => L [fpr_v (fst x); list_v winfo_v (snd x)])
+             (ws_f1_fast (v_beta (v_nth 0 cfg)) (v_bool (v_nth 1 cfg)) (v_mode (v_nth 2 cfg))
+                         (v_cll (v_nth 0 d)) (v_cll (v_nth 1 d)) (v_cll (v_nth 2 d)))
+  | 4%Z => outcome_out fpr_v
+             (sp_f1_fast (v_beta (v_nth 0 cfg)) (v_bool (v_nth 1 cfg))
+                         (v_cll (v_nth 0 d)) (v_cll (v_nth 1 d)) (v_cll (v_nth 2 d)))
+  | _ => panic_v
+  end.
+(** [check_C13] with the model evaluated by [run_C13_fast] *)
+Definition check_C13_fast (v out : val) : bool :=
+  agree_C13 v (run_C13_fast v) out &&
+  match out with
+  | L [I 0%Z; x] =>
+    let cfg := v_nth 1 v in
+    let d := v_nth 2 v in
+    match v_z (v_nth 0 v) with
+    | 0%Z => in01_3 x
+    | 1%Z => in01 x
+    | 2%Z => if v_bool (v_nth 0 cfg) then in01 x else nonneg x
+    | 3%Z => match x with
+             | L [f; infos] =>
+               in01_3 f && calib d (v_bool (v_nth 1 cfg)) f &&
+               (if val_eqb (v_nth 1 d) (v_nth 2 d) then no_fp_fn infos else true)
+             | _ => false
+             end
+    | 4%Z => in01_3 x && calib d (v_bool (v_nth 1 cfg)) x
+    | _ => false
+    end
+  | _ => true
+  end.
